@@ -121,7 +121,17 @@ func (w *world) entries(es []refmodel.CRLEntry) []pki.CRLEntry {
 		} else if isSib(e, i) {
 			pe.Serial = w.sib.SerialNumber
 		} else {
-			pe.Serial = new(big.Int).Add(w.cert, big.NewInt(int64(1000+i)))
+			// a serial number of nobody here - some of them look like the checked
+			// certificate's: its negation (a DER INTEGER is signed), and one that
+			// agrees with it in the low 64 bits
+			switch (i/2 + e.T + max(e.Reason, 0)) % 3 {
+			case 0:
+				pe.Serial = new(big.Int).Add(w.cert, big.NewInt(int64(1000+i)))
+			case 1:
+				pe.Serial = new(big.Int).Neg(w.cert)
+			default:
+				pe.Serial = new(big.Int).Add(w.cert, new(big.Int).Lsh(big.NewInt(int64(1+i)), 64))
+			}
 		}
 		var t time.Time
 		switch e.Inv {
